@@ -610,11 +610,11 @@ class Subscription(BaseSubscription):
             for tagname, tags in filter_obj.tags:
                 pstr = []
                 for val in tags:
-                    if val:
-                        val = val.replace("'", "''")
-                        pstr.append(f"'{val}'")
+                    val = val.replace("'", "''")
+                    pstr.append(f"'{val}'")
                 if pstr:
                     pstr = ",".join(pstr)
+                    tagname = tagname.replace("'", "''")
                     subwhere.append(
                         f"id IN (SELECT id FROM tags WHERE name = '{tagname}' AND value IN ({pstr})) "
                     )
